@@ -204,6 +204,11 @@ func genRangeFor(t *rapid.T, qc *qctx, offers []string) Range {
 	return r
 }
 
+// genEmptyElements switches on empty list elements ("a/b,,c/d", ",c/d") in the structured generators. It is off:
+// the current ParseAccept drops the rest of a header line at an empty element (see the report of this package's
+// author); RFC 7230 section 7 obliges recipients to ignore empty elements, but DESIGN.md does not list the class.
+const genEmptyElements = false
+
 // GenRanges is exported for C08.
 func GenRanges(t *rapid.T, offers []string, max int) []Range { return genRanges(t, offers, max) }
 
@@ -218,6 +223,9 @@ func genRanges(t *rapid.T, offers []string, max int) []Range {
 		r := genRangeFor(t, qc, offers)
 		if i > 0 {
 			r.NL = rapid.IntRange(0, 3).Draw(t, "newline") == 0
+		}
+		if genEmptyElements {
+			r.Empty = rapid.SampledFrom([]int{0, 0, 0, 1, 2}).Draw(t, "empty")
 		}
 		// equal weights make the specificity and offer-order rules decide
 		if i > 0 && r.HasQ && rs[0].HasQ && rapid.IntRange(0, 2).Draw(t, "sameq") == 0 {
